@@ -546,6 +546,26 @@ fn dump_body<'tcx>(tcx: TyCtxt<'tcx>, did: DefId, body: &Body<'tcx>, stage: &str
         ("expk", J::S(exp_kind(tcx.def_span(did)))),
         ("argc", J::I(body.arg_count as i128)),
     ];
+    // generic parameter names in substitution order (parents first): lets a call site's generic arguments be matched with
+    // the callee's parameters when a generic helper is inlined
+    if !matches!(dk, DefKind::Closure) {
+        let mut names: Vec<J> = Vec::new();
+        let mut chain = Vec::new();
+        let mut g = tcx.generics_of(did);
+        loop {
+            chain.push(g);
+            match g.parent {
+                Some(p) => g = tcx.generics_of(p),
+                None => break,
+            }
+        }
+        for g in chain.iter().rev() {
+            for prm in g.own_params.iter() {
+                names.push(J::S(prm.name.to_string()));
+            }
+        }
+        f.push(("generics", J::A(names)));
+    }
     // parent (for closures: the enclosing item; for assoc fns: the impl)
     let parent = tcx.parent(did);
     f.push(("parent", J::S(path(tcx, parent))));
@@ -695,6 +715,9 @@ impl rustc_driver::Callbacks for Cb {
             return Compilation::Continue;
         }
         let owners: Vec<LocalDefId> = tcx.hir_body_owners().collect();
+        // Clone every coroutine body first: dumping one body resolves callees, which can force the coroutine witnesses of
+        // *another* async fn (auto-trait checks on its future) and thereby steal that one's mir_built before we get to it.
+        let mut bodies = Vec::new();
         for ldid in owners {
             let did = ldid.to_def_id();
             if !matches!(tcx.def_kind(did), DefKind::Closure) {
@@ -705,10 +728,14 @@ impl rustc_driver::Callbacks for Cb {
             }
             let steal = tcx.mir_built(ldid);
             if steal.is_stolen() {
+                eprintln!("mirfacts: mir_built of {:?} already stolen", did);
                 continue;
             }
-            let body = steal.borrow();
-            self.pre.push(dump_body(tcx, did, &body, "built", &krate));
+            let body = steal.borrow().clone();
+            bodies.push((did, body));
+        }
+        for (did, body) in bodies.iter() {
+            self.pre.push(dump_body(tcx, *did, body, "built", &krate));
         }
         Compilation::Continue
     }
